@@ -74,6 +74,15 @@ func classifyErrValue(f *ssa.Function, v ssa.Value, at *ssa.BasicBlock, seen map
 	if rv := resolve(v); rv != v && !seen[rv] {
 		return classifyErrValue(f, rv, at, seen)
 	}
+	// ... also when deferred closures assign the variable, provided they cannot turn an
+	// error into nil or nil into an error
+	if ld, ok := v.(*ssa.UnOp); ok && ld.Op == token.MUL {
+		if al, ok := ld.X.(*ssa.Alloc); ok && closureWrites(al) && defersKeepNilness(al) {
+			if lv := lastStoreBeforeDefers(ld, al); lv != nil && !seen[lv] {
+				return classifyErrValue(f, lv, at, seen)
+			}
+		}
+	}
 	return retUnknown
 }
 
@@ -407,6 +416,12 @@ func reachingStore(ld *ssa.UnOp, al *ssa.Alloc) ssa.Value {
 					if bd == ssa.Value(al) {
 						sites = append(sites, site{b, i, nil})
 					}
+				}
+			case *ssa.RunDefers:
+				// a deferred closure that assigns the variable runs here (named results
+				// adjusted on the way out: defer func() { if err == nil { ids = unique(ids) } }())
+				if closureWrites(al) {
+					sites = append(sites, site{b, i, nil})
 				}
 			case *ssa.Call:
 				for _, a := range x.Call.Args {
@@ -933,4 +948,147 @@ func throughCall(v ssa.Value, depth int) []ssa.Value {
 		}
 	}
 	return out
+}
+
+// closureWrites: some closure that captured the variable stores into it.
+func closureWrites(al *ssa.Alloc) bool {
+	if al.Referrers() == nil {
+		return false
+	}
+	for _, ref := range *al.Referrers() {
+		mc, ok := ref.(*ssa.MakeClosure)
+		if !ok {
+			continue
+		}
+		fn, _ := mc.Fn.(*ssa.Function)
+		if fn == nil {
+			continue
+		}
+		for i, b := range mc.Bindings {
+			if b != ssa.Value(al) || i >= len(fn.FreeVars) || fn.FreeVars[i].Referrers() == nil {
+				continue
+			}
+			for _, r2 := range *fn.FreeVars[i].Referrers() {
+				if st, ok := r2.(*ssa.Store); ok && st.Addr == ssa.Value(fn.FreeVars[i]) {
+					return true
+				}
+			}
+		}
+	}
+	return false
+}
+
+// defersKeepNilness: every store a closure makes into the captured error
+// variable happens on the non-nil edge of a test of that same variable and
+// stores a constructed error (defer func() { if err != nil { err = wrap(err) } }()):
+// whether the function returns nil or non-nil is then decided by the last
+// ordinary assignment.
+func defersKeepNilness(al *ssa.Alloc) bool {
+	if al.Referrers() == nil {
+		return true
+	}
+	for _, ref := range *al.Referrers() {
+		mc, ok := ref.(*ssa.MakeClosure)
+		if !ok {
+			continue
+		}
+		fn, _ := mc.Fn.(*ssa.Function)
+		if fn == nil {
+			return false
+		}
+		for i, b := range mc.Bindings {
+			if b != ssa.Value(al) || i >= len(fn.FreeVars) || fn.FreeVars[i].Referrers() == nil {
+				continue
+			}
+			fv := fn.FreeVars[i]
+			for _, r2 := range *fv.Referrers() {
+				st, ok := r2.(*ssa.Store)
+				if !ok || st.Addr != ssa.Value(fv) {
+					continue
+				}
+				if !isErrorCtor(st.Val) {
+					if _, isCall := st.Val.(*ssa.Call); !isCall {
+						return false
+					}
+				}
+				// dominated by the non-nil edge of `*fv != nil`
+				guarded := false
+				for _, blk := range fn.Blocks {
+					t, fl, ifi := ifSuccs(blk)
+					if ifi == nil {
+						continue
+					}
+					bo, ok := ifi.Cond.(*ssa.BinOp)
+					if !ok || (bo.Op != token.NEQ && bo.Op != token.EQL) {
+						continue
+					}
+					var other, tested ssa.Value
+					if isNilConst(bo.Y) {
+						tested, other = bo.X, bo.Y
+					} else if isNilConst(bo.X) {
+						tested, other = bo.Y, bo.X
+					}
+					_ = other
+					if tested == nil {
+						continue
+					}
+					if ld, ok := tested.(*ssa.UnOp); !ok || ld.Op != token.MUL || ld.X != ssa.Value(fv) {
+						continue
+					}
+					nonNil := t
+					if bo.Op == token.EQL {
+						nonNil = fl
+					}
+					if nonNil == st.Block() || blockDominatedByEdge(fn, blk, nonNil, st.Block()) {
+						guarded = true
+					}
+				}
+				if !guarded {
+					return false
+				}
+			}
+		}
+	}
+	return true
+}
+
+// lastStoreBeforeDefers: for a load that follows `rundefers` in its block, the
+// value of the variable just before the deferred calls ran.
+func lastStoreBeforeDefers(ld *ssa.UnOp, al *ssa.Alloc) ssa.Value {
+	b := ld.Block()
+	for i, in := range b.Instrs {
+		if _, ok := in.(*ssa.RunDefers); !ok {
+			continue
+		}
+		// a pseudo load placed right before rundefers: reuse reachingStore through a
+		// scan of the stores of this block, else give up
+		var last ssa.Value
+		for j := 0; j < i; j++ {
+			if st, ok := b.Instrs[j].(*ssa.Store); ok && st.Addr == ssa.Value(al) {
+				last = st.Val
+			}
+		}
+		if last != nil {
+			return last
+		}
+		// no store in this block: the unique store that dominates it, if there is one and
+		// no other store lies between
+		var cand ssa.Value
+		n := 0
+		if al.Referrers() != nil {
+			for _, ref := range *al.Referrers() {
+				if st, ok := ref.(*ssa.Store); ok && st.Addr == ssa.Value(al) {
+					n++
+					if st.Block().Dominates(b) {
+						cand = st.Val
+					}
+				}
+			}
+		}
+		if n == 1 {
+			return cand
+		}
+		return nil
+	}
+	return nil
 }
